@@ -1,6 +1,12 @@
 package harness
 
 import (
+	"go/ast"
+	"go/parser"
+	"go/token"
+	"sort"
+	"strings"
+
 	"bufio"
 	"encoding/json"
 	"fmt"
@@ -28,6 +34,14 @@ func Overlay() string {
 			filepath.Join(RepoDir, "checkers", "analyzer", "verif_hooks.go"): filepath.Join(ov, "analyzer", "verif_hooks.go"),
 			filepath.Join(RepoDir, "cmd", "go-critic", "verif_rpc.go"):       filepath.Join(ov, "cmdmain", "verif_rpc.go"),
 			filepath.Join(RepoDir, "cmd", "gocritic", "verif_rpc.go"):        filepath.Join(ov, "cmdmain", "verif_rpc.go"),
+		}
+		// VerifReset is generated from the current sources: it zeroes every package-level variable of the
+		// analyzer package whose name starts with "global" (the cached configuration latch), whatever its type
+		if gen := genAnalyzerReset(); gen != "" {
+			dst := filepath.Join(WorkDir(), "gen", "verif_reset.go")
+			os.MkdirAll(filepath.Dir(dst), 0o755)
+			os.WriteFile(dst, []byte(gen), 0o644)
+			repl[filepath.Join(RepoDir, "checkers", "analyzer", "verif_reset.go")] = dst
 		}
 		for k, v := range ExtraOverlay {
 			repl[k] = v
@@ -129,4 +143,43 @@ func (r *RPC) Close() {
 		killpg(r.cmd)
 		<-done
 	}
+}
+
+func genAnalyzerReset() string {
+	dir := filepath.Join(RepoDir, "checkers", "analyzer")
+	fset := token.NewFileSet()
+	pkgs, err := parser.ParseDir(fset, dir, func(fi os.FileInfo) bool { return !strings.HasSuffix(fi.Name(), "_test.go") }, 0)
+	if err != nil {
+		return ""
+	}
+	var names []string
+	for _, p := range pkgs {
+		for _, f := range p.Files {
+			for _, d := range f.Decls {
+				gd, ok := d.(*ast.GenDecl)
+				if !ok || gd.Tok != token.VAR {
+					continue
+				}
+				for _, sp := range gd.Specs {
+					for _, n := range sp.(*ast.ValueSpec).Names {
+						if strings.HasPrefix(n.Name, "global") {
+							names = append(names, n.Name)
+						}
+					}
+				}
+			}
+		}
+	}
+	sort.Strings(names)
+	var b strings.Builder
+	b.WriteString("//go:build verif\n\n// Generated per build by the verification harness (never committed to /repo).\npackage analyzer\n\nfunc verifZero[T any](p *T) {\n\tvar z T\n\t*p = z\n}\n\n// VerifReset puts the cached-configuration latch into its initial state.\nfunc VerifReset() {\n")
+	for _, n := range names {
+		b.WriteString("\tverifZero(&" + n + ")\n")
+	}
+	b.WriteString("}\n\n// VerifLatchVars lists what VerifReset zeroes.\nvar VerifLatchVars = []string{")
+	for _, n := range names {
+		b.WriteString("\"" + n + "\", ")
+	}
+	b.WriteString("}\n")
+	return b.String()
 }
